@@ -96,7 +96,10 @@ def check(case, res):
   def cause(t, s):
     """classifies the unreported reference change points in (s, t]"""
     missing = [p for p in changed if p <= t and (s is None or p > s) and p not in sig]
-    if missing and all(p in oap for p in missing):
+    # (an unreported step of an offset element may change the snapshot without changing the rendered reference, e.g. the colour of
+    # white-space-only text: the step's own instants count, not only the reference's visible change points)
+    unreported_steps = [p for p in oap if p <= t and (s is None or p > s) and p not in sig]
+    if (missing or unreported_steps) and all(p in oap for p in missing):
       return ":anim-step-of-offset-element"
     return ""
 
